@@ -118,6 +118,9 @@ pub enum Mode {
     /// Stop the world before operation k; for a write optionally leave an empty file.
     CrashAt { k: usize, torn: bool },
     FailAt { k: usize, kind: ErrorKind },
+    /// Fail operation k with `kind` and the operation that follows it (whatever it turns out
+    /// to be: a retry, a cleanup, the next step) with `kind2`.
+    FailAtPair { k: usize, kind: ErrorKind, kind2: ErrorKind },
     /// Stop the world before the nth write operation (counting writes only), and optionally
     /// sleep a random few microseconds before every operation (scheduling jitter).
     CrashAtWrite { nth: usize },
@@ -283,6 +286,15 @@ impl Icept {
             Mode::FailAt { k, kind } => {
                 if idx == k {
                     Decision::Fail(kind)
+                } else {
+                    Decision::Proceed
+                }
+            }
+            Mode::FailAtPair { k, kind, kind2 } => {
+                if idx == k {
+                    Decision::Fail(kind)
+                } else if idx == k + 1 {
+                    Decision::Fail(kind2)
                 } else {
                     Decision::Proceed
                 }
